@@ -286,14 +286,141 @@ Section P.
     2:{ subst st1. autorewrite with gst. symmetry. assumption. }
     2:{ subst st1. unfold gfits. autorewrite with gst. rewrite Hs', Ha', Ht'. assumption. }
     cbn [bind]. rewrite (pad_aligned _ _ (galign_nz _) Habs). cbn [app].
-    subst st1. cbn [g_dep gwr gset_dep]. rewrite Hdec.
+    subst st1. autorewrite with gst. rewrite Hdec.
+    rewrite (reframe st _ _ cs d' _ _ eq_refl eq_refl).
     cbn [galign gsig gvb]. rewrite fixed_sized_spec.
-    destruct (gis_fixed cs).
-    - rewrite app_nil_r. apply f_equal. destruct st; cbn in *. subst. unfold gwr; cbn. f_equal.
-      + now rewrite !rev_append_rev, rev_app_distr, app_assoc.
-      + rewrite len_app. lia.
-    - apply f_equal. destruct st; cbn in *. subst. unfold gwr; cbn. f_equal.
-      + rewrite !rev_append_rev, !rev_app_distr. cbn. now rewrite <- !app_assoc.
-      + rewrite !len_app. cbn. lia.
+    destruct (gis_fixed cs); [now rewrite app_nil_r|]. rewrite gwr_gwr. now rewrite <- app_assoc.
+  Qed.
+
+  Lemma good_variant x : good x -> good (GVariant x).
+  Proof.
+    intros IH st He Hw Hp Hs Hv Hd Hf. cbn [sval_of gsig galign] in *.
+    rewrite gser_variant_struct by assumption.
+    cbn [gwf] in Hw. apply andb_true_iff in Hw as [Hwx Hsx].
+    unfold pre in Hp. cbn [all_nodes] in Hp. apply andb_true_iff in Hp as [Hn Hpx]. fold (pre x) in Hpx.
+    unfold gfits in Hf. cbn [gdepth_ok] in Hf. apply andb_true_iff in Hf as [Hf1 Hf2]. apply N.leb_le in Hf1.
+    destruct (inc_variant_good _ Hd Hf1) as (d' & Hinc & Hd' & Hs' & Ha' & Ht').
+    unfold gstruct_begin. rewrite gpadded_gwr. autorewrite with gst. rewrite Hs. cbn [align_gv].
+    rewrite gpadded_gwr. autorewrite with gst.
+    assert (H8 : (gabs st + len (pad (gabs st) 8)) mod 8 = 0) by (rewrite len_pad; apply padn_after; lia).
+    rewrite (pad_aligned (gabs st + len (pad (gabs st) 8)) 8) by (lia || assumption). rewrite gwr_nil, len_nil, N.add_0_r. rewrite Hinc. cbn [bind].
+    set (st1 := gset_dep (gwr st (pad (gabs st) 8)) d').
+    (* first field: the signature, put aside *)
+    cbn [ser_nfields]. unfold gfield_sig at 1. subst st1. autorewrite with gst. rewrite Hs, Hv. cbn [bind].
+    cbn [gser]. unfold gser_str at 1. unfold gsub_of at 1. autorewrite with gst.
+    rewrite (parse_show_gv _ Hsx). cbn [bind].
+    rewrite gback_vsign. unfold gfield_done at 1. autorewrite with gst. rewrite Hs.
+    (* second field: the value *)
+    unfold gfield_sig. autorewrite with gst. rewrite Hs. cbn [bind].
+    set (st2 := gsub_of _ (gsig x)).
+    assert (Habs : gabs st2 mod galign (gsig x) = 0).
+    { subst st2. unfold gsub_of. autorewrite with gst.
+      apply (mod_trans _ 8).
+      - lia.
+      - apply galign_nz.
+      - assumption.
+      - apply pow2_div; [unfold pow2; tauto|apply galign_pow2|].
+        destruct (galign_pow2 (gsig x)) as [Hq|[Hq|[Hq|Hq]]]; rewrite Hq; lia. }
+    rewrite (IH st2); try assumption; try reflexivity.
+    2:{ subst st2. unfold gfits, gsub_of. autorewrite with gst. rewrite Hs', Ha', Ht'. assumption. }
+    cbn [bind]. rewrite (pad_aligned _ _ (galign_nz _) Habs). cbn [app].
+    subst st2. rewrite gback_gwr. unfold gfield_done. autorewrite with gst. rewrite Hs.
+    cbn [bind ser_nfields]. unfold gstruct_end. cbn [gvb].
+    autorewrite with gpush. do 2 f_equal.
+    destruct st; cbn in *; subst; reflexivity.
+  Qed.
+
+  (* ---------- arrays ---------- *)
+  Lemma elems_ok l : Forall good l -> forall st start roffs el,
+    g_e st = e ->
+    forallb (fun x => gwf x && sig_eqb (gsig x) el) l = true -> forallb pre l = true ->
+    g_sig st = el -> g_vsign st = None -> dep_ok (g_dep st) ->
+    forallb (gdepth_ok (d_struct (g_dep st)) (d_array (g_dep st)) (dtot (g_dep st))) l = true ->
+    start <= g_written st ->
+    (g_pos0 st + start) mod galign el = 0 ->
+    ser_elems (map sval_of l) start roffs st =
+      Ok (gwr st (concat (gparts e l (g_written st - start))),
+          match roffs with
+          | Some ro => Some (rev (ends_from (g_written st - start) (gparts e l (g_written st - start))) ++ ro)
+          | None => None
+          end).
+  Proof.
+    induction 1 as [|x l Hx Hl IH]; intros st start roffs el He Hw Hp Hs Hv Hd Hf Hst Hal.
+    - cbn [map ser_elems gparts concat ends_from rev app]. rewrite gwr_nil. destruct roffs; reflexivity.
+    - cbn [forallb] in Hw, Hp, Hf.
+      apply andb_true_iff in Hw as [Hwx Hw]. apply andb_true_iff in Hwx as [Hwx Hsx]. apply sig_eqb_eq in Hsx.
+      apply andb_true_iff in Hp as [Hpx Hp]. apply andb_true_iff in Hf as [Hfx Hf].
+      cbn [map ser_elems].
+      rewrite (Hx st He Hwx Hpx (eq_trans Hs (eq_sym Hsx)) Hv Hd Hfx). cbn [bind].
+      replace (gabs st) with ((g_pos0 st + start) + (g_written st - start)) by (unfold gabs; lia).
+      rewrite Hsx. rewrite (pad_shift _ _ _ (galign_nz el) Hal).
+      set (off := g_written st - start). set (b := pad off (galign el) ++ gvb e x).
+      rewrite (IH (gwr st b) start (push_end (gwr st b) start roffs) el); autorewrite with gst; try assumption.
+      2:{ lia. }
+      replace (g_written st + len b - start) with (off + len b) by (subst off; lia).
+      cbn [gparts concat ends_from]. rewrite Hsx. fold b. rewrite gwr_gwr. f_equal. f_equal.
+      destruct roffs as [ro|]; cbn [push_end]; [|reflexivity]. autorewrite with gst.
+      replace (g_written st + len b - start) with (off + len b) by (subst off; lia).
+      cbn [rev]. now rewrite <- app_assoc.
+  Qed.
+
+  (* the offsets of a container of [n] data bytes: what write_all appends *)
+  Lemma write_all_framing st offs n :
+    n + N.of_nat (length offs) < 2 ^ 60 ->
+    write_all st offs n = Ok (gwr st (framing n offs)).
+  Proof.
+    intros Hn. unfold write_all, framing. destruct offs as [|o r]; [now rewrite gwr_nil|].
+    rewrite for_bare_width.
+    2:{ change (2 ^ 60) with 1152921504606846976 in Hn. lia. }
+    cbn [bind]. now rewrite write_offsets_fold.
+  Qed.
+
+  Lemma len_framing n offs : len (framing n offs) = offset_width n (N.of_nat (length offs)) * N.of_nat (length offs).
+  Proof. apply len_offs_enc. Qed.
+  Lemma framing_small n offs : len (framing n offs) + n < 2 ^ 60 -> n + N.of_nat (length offs) < 2 ^ 60.
+  Proof.
+    rewrite len_framing. pose proof (offset_width_pos n (N.of_nat (length offs))) as Hw.
+    set (w := offset_width n (N.of_nat (length offs))) in *. set (k := N.of_nat (length offs)).
+    pose proof (N.mul_le_mono_r 1 w k Hw) as Hk. rewrite N.mul_1_l in Hk. intros Hlt. lia.
+  Qed.
+
+  Lemma length_ends_from off ps : length (ends_from off ps) = length ps.
+  Proof. revert off. induction ps as [|b r IH]; intros off; cbn; [reflexivity|]. now rewrite IH. Qed.
+
+  Lemma good_array el l : Forall good l -> good (GArray el l).
+  Proof.
+    intros HF st He Hw Hp Hs Hv Hd Hf. cbn [sval_of]. rewrite gser_seq.
+    pose proof (pre_align _ Hp Hw) as Hal. cbn [gsig] in Hal, Hs |- *.
+    destruct (pre_node _ Hp) as (Hnb & _ & Hne & _ & Hsmall).
+    cbn [gwf] in Hw. apply andb_true_iff in Hw as [Hel Hwl].
+    unfold pre in Hp. rewrite all_nodes_array in Hp. apply andb_true_iff in Hp as [_ Hpl].
+    unfold gfits in Hf. cbn [gdepth_ok] in Hf. apply andb_true_iff in Hf as [Hf Hfl]. apply andb_true_iff in Hf as [Hf1 Hf2].
+    apply N.leb_le in Hf1, Hf2.
+    destruct (inc_array_good _ Hd Hf1 Hf2) as (d' & Hinc & Hdec & Hd' & Hs' & Ha' & Ht').
+    unfold gseq_begin. rewrite gpadded_gwr. rewrite Hs, Hal. cbn [bind galign]. autorewrite with gst. rewrite Hinc. cbn [bind].
+    set (p := pad (gabs st) (galign el)).
+    set (st1 := gset_dep (gset_sig (gwr st p) el) d').
+    rewrite (elems_ok l HF st1 (g_written st + len p) _ el); subst st1; autorewrite with gst; try assumption; try reflexivity.
+    2:{ rewrite Hs', Ha', Ht'. assumption. }
+    2:{ lia. }
+    2:{ replace (g_pos0 st + (g_written st + len p)) with (gabs st + len p) by (unfold gabs; lia).
+        subst p. rewrite len_pad. apply padn_after, galign_nz. }
+    rewrite N.sub_diag. cbn [bind]. unfold gseq_end. autorewrite with gst. rewrite Hdec.
+    rewrite gvb_array. cbv zeta. set (ps := gparts e l 0) in *. set (data := concat ps) in *.
+    rewrite fixed_sized_spec.
+    destruct (gis_fixed el) eqn:Hfx.
+    - rewrite (reframe st _ _ el d' _ _ eq_refl eq_refl). reflexivity.
+    - rewrite app_nil_r. replace (g_written st + len p + len data - (g_written st + len p)) with (len data) by lia.
+      rewrite gvb_array in Hsmall. cbv zeta in Hsmall. fold ps data in Hsmall. rewrite Hfx in Hsmall. rewrite len_app in Hsmall.
+      destruct (N.eqb_spec (len data) 0) as [H0|H0].
+      + (* nothing was written: only legitimate for the empty array *)
+        destruct l as [|x r].
+        * cbn. rewrite (reframe st _ _ el d' _ _ eq_refl eq_refl). reflexivity.
+        * exfalso. cbn [node_empty_offsets] in Hne. rewrite Hfx in Hne. cbn [negb andb] in Hne.
+          fold ps data in Hne. rewrite H0 in Hne. discriminate.
+      + rewrite frev_involutive.
+        rewrite (reframe st _ _ el d' _ _ eq_refl eq_refl).
+        rewrite write_all_framing by (apply framing_small; lia).
+        rewrite gwr_gwr. now rewrite <- app_assoc.
   Qed.
 End P.
